@@ -73,6 +73,8 @@ type Sched struct {
 	Panics   []string
 	stackBuf []byte
 	// SettleTimeout bounds the wait for quiescence (default 60s); Busy lists what was still running when it expired.
+	// HarnessWaits lists function-name fragments of the harness in which a channel wait is a wait for another actor
+	HarnessWaits  []string
 	SettleTimeout time.Duration
 	Busy          []string
 }
@@ -316,6 +318,11 @@ func (s *Sched) classify(g gor) (string, string) {
 		if !isRuntimeish(f) {
 			inner = f
 			break
+		}
+	}
+	for _, t := range s.HarnessWaits {
+		if strings.Contains(inner, t) {
+			return "blocked", g.state + " in " + inner // the harness's own wait for another actor (a phase of the scenario)
 		}
 	}
 	if !isOurs(inner) {
